@@ -533,6 +533,9 @@ func streamResolve(g *G) { // C02: add-only tables, several registration orders
 			g.emit("routes %d", rid)
 			for _, p := range paths {
 				g.serveLine("serve", rid, "GET", p, "", nil)
+				// answered by the model side only: the admissible outcomes according to the Lean reference resolver of
+				// the theorem C02_resolve; the C02 judge checks the implementation's answer above against it
+				g.emit("spec-adm %d %s", rid, encB(p))
 			}
 			rid++
 		}
